@@ -380,6 +380,10 @@ var c10fixed = []string{
 	"global L\nconst n = 10\nconst s = \"c\"\ndouble := func(n) { return n * 2 }\nblk := func() {\n  if true {\n    n := 3\n    return n + 1\n  }\n  return 0\n}\nloopsum := func() {\n  t := 0\n  for n in [1, 2] {\n    t += n\n  }\n  return t\n}\ncatcher := func() {\n  try {\n    throw \"x\"\n  } catch s {\n    return s.Message\n  }\n  return 0\n}\n[double(4), blk(), loopsum(), catcher(), n, s]",
 	"global L\nconst (\n  a = iota\n  b\n  c\n)\nf := func(a, ...c) { return [a, b, c] }\ng := func() {\n  b := \"inner\"\n  return func() { return [a, b, c] }\n}\n[f(7, 8), g()(), a + b + c]",
 	"global L\nconst k = 2\nx := 5\nif x > k {\n  k := 100\n  L(k + x)\n}\nfor k := 0; k < 2; k++ {\n  L(k)\n}\nh := func(x) { return x * k }\n[h(3), k]",
+	// top-level param declarations together with other top-level names
+	"global L\nparam p\nn := 10\nf := func() { return [n, p] }\nf()\nm := 2\n[n, m, f(), p]",
+	"global L\nparam (a, ...rest)\nx := [a, rest]\ng := func() { x = append(x, len(rest)); return x }\ng()\nconst k = 3\ny := k + len(x)\n[x, y, g()]",
+	"global L\nv := 1\nparam q\nh := func() { v++; return [v, q] }\nh()\nw := h()\n[v, w]",
 	"global L\nx := 1\nx := 2\nx",
 	"global L\nx := 1\ny := x / 0\nz := 5\nz",
 }
